@@ -238,6 +238,9 @@ def encode_float(float_number: float | None) -> int:
     return encoded_int
 
 
+# Relative tolerance of the range check in decode_number (far below one resolution step of any 32 bit field)
+RANGE_CHECK_REL_TOL = 1e-12
+
 def decode_number(data_raw: int, bit_offset: int, bit_length: int, signed: bool, resolution: float, min_value: float, max_value: float, offset: float = 0) -> Optional[float]:
     """
     The function follows specific decoding rules based on the bit length of the number:
@@ -268,9 +271,11 @@ def decode_number(data_raw: int, bit_offset: int, bit_length: int, signed: bool,
     if offset != 0:
         number_int += offset
 
-    if number_int < min_value:
+    # The limits are decimal numbers from the database and the scaled value is a binary float: compare with a
+    # relative tolerance so that the extreme legal raw values (e.g. 65532 * 0.1 = 6553.200000000001) are accepted.
+    if number_int < min_value and not math.isclose(number_int, min_value, rel_tol=RANGE_CHECK_REL_TOL):
         raise ValueError("Value below minimum allowed")
-    if number_int > max_value:
+    if number_int > max_value and not math.isclose(number_int, max_value, rel_tol=RANGE_CHECK_REL_TOL):
         raise ValueError("Value above maximum allowed")
 
     return number_int
